@@ -7,7 +7,7 @@ META = {
     "rule": "V1 name class per Definition variant (path-sensitive walk of rename's match); "
             "V2 exactly-one-token gate; V3 locality gate on prepare_rename and rename; "
             "V4 sibling agreement of the gate sets; V5 server forwards new_name / maps Err; V6 a package's locality is computed from its own root path (build/packages) only; V7 both dependency tables of gleam.toml are followed. "
-            "An obligation is non-trivial when its verdict needed a path or dominance argument.",
+            "An obligation is non-trivial when its verdict needed a path or dominance argument. V3 also: the package whose locality is asked is that of Definition::module(..) of find_def's result, not of the cursor's file.",
     "explanation": "Decides the validation/gating clauses of C08 for every input at once by reading "
                    "the MIR of ide::ide::rename::{rename,prepare_rename,find_def} and the LSP handler: "
                    "each Definition variant must reach success only through a comparison of the lexed "
@@ -181,6 +181,27 @@ def sem_gates(F, fn, res, rule):
     return sem, gs
 
 
+def locality_of_definition(F, fn, g):
+    """does the receiver of the gating Package::is_local call derive (data dependence) from Definition::module(..) of find_def's result?"""
+    holder = F.fns[g["inside"]] if g.get("inside") else fn
+    d = FL.Defs(holder)
+    dep = FL.depends(F, holder, d, g["call_t"]["args"][0])
+    calls = set(dep["calls"])
+    if g.get("inside") and "Definition::module" not in calls and dep["args"]:
+        # the helper was handed the module / definition: look at what the caller passed
+        dc = FL.Defs(fn)
+        for b, t in fn.calls():
+            if callee(t) == g["inside"]:
+                for n in dep["args"]:
+                    if n - 1 < len(t["args"]):
+                        sub = FL.depends(F, fn, dc, t["args"][n - 1])
+                        calls |= {"caller:" + c for c in sub["calls"]}
+    has_mod = "Definition::module" in calls or "caller:Definition::module" in calls
+    from_find = any(c.endswith("find_def") for c in calls) or any(
+        c.endswith("find_def") for c in FL.depends(F, fn, FL.Defs(fn), g["call_t"]["args"][0])["calls"]) if not g.get("inside") else True
+    return has_mod and from_find, "receiver derives from: %s" % sorted(c for c in calls if "module" in c.lower() or "find_def" in c or "package" in c.lower())
+
+
 def run(F, res, tier):
     rename = F.fn(RENAME)
     prepare = F.fn(PREPARE)
@@ -235,6 +256,12 @@ def run(F, res, tier):
                how="dominating gate at bb%d" % g["bb"] if g else
                "no Package::is_local test dominates the Ok return; gates present: %s"
                % [FL.gate_summary(x) for x in (gs_p if fn is prepare else gs_r)])
+        # ... and the package asked is the one the *definition* lives in (a dependency's symbol can be reached from a local file)
+        if g:
+            okp, howp = locality_of_definition(F, fn, g)
+            res.ob("V3", "%s/locality-of-the-definition" % fname,
+                   "the package whose locality gates %s is the package of the module the resolved definition lives in (Definition::module of "
+                   "find_def's result), not of the file the cursor is in" % fname, okp, where=fn.loc(g["ln"]), how=howp)
     vocab = ["definition-found", "not-aliased", "not-module-or-builtin", "local-package"]
     for v in vocab:
         if v == "not-module-or-builtin":
